@@ -3,7 +3,7 @@
     Property theorems only; each is closed by [exact] of a lemma from [C12/Proofs.v].
     The model ([C12/Model.v]) sits on the shared class / initializer model ([Core/Init.v]):
     [evolve] collects the original's current values by alias and calls the initializer of
-    C01 with keyword arguments only; [assoc] is [copy.copy] followed by raw stores.  Both
+    C01 with keyword arguments only; [assoc] is [copy.copy], a reset of the hash cache, and raw stores under field names.  Both
     return (the original after the call, the outcome). *)
 From Coq Require Import List Bool String.
 Import ListNotations.
@@ -119,12 +119,12 @@ Theorem evolve_original_untouched : forall k f von i changes, fst (evolve k f vo
 Proof. exact evolve_original_untouched_l. Qed.
 Print Assumptions evolve_original_untouched.
 
-(** ** assoc *)
+(** ** assoc (the code after the repairs 1567142 and 2787de0) *)
 
 (** Named fields hold the raw new value (no converter, validator, hook; frozen classes too),
-    every other field what the original holds, the original is untouched.  The hash cache is
-    reset when the class has a generated [__setstate__] and CARRIED OVER on a pure dict
-    chain (the root of K3a). *)
+    every other field what the original holds, the original is untouched; the hash cache of
+    the result is [cache_after]: [None] wherever the class / the original has one - reset by
+    the generated [__setstate__] or by [assoc] itself after the dict copy - never carried. *)
 Theorem assoc_spec : forall k inh i changes,
   wf k -> copyable k inh i -> NoDup (map fst changes) ->
   (forall n, In n (map fst changes) -> In n (map a_name (k_attrs k))) ->
@@ -135,17 +135,36 @@ Theorem assoc_spec : forall k inh i changes,
                                | Some v => Ok v
                                | None => read k i (a_name a)
                                end) /\
-    (has_getstate k inh = true -> k_cache_hash k = true -> read k new HASH_CACHE = Ok VNone) /\
-    (has_getstate k inh = false -> read k new HASH_CACHE = read k i HASH_CACHE).
+    read k new HASH_CACHE = cache_after k inh i.
 Proof. exact assoc_spec_l. Qed.
 Print Assumptions assoc_spec.
 
-(** The first name that is neither a field nor an attribute of tuple objects raises
-    AttrsAttributeNotFoundError (guarded form: see [assoc_count_index_refuted]). *)
+(** Unguarded hash consistency (this was K3a): hash-caching class, fully set original that
+    has the cache attribute - whatever was hashed or reassigned before -, any set of field
+    names: the copy's cache is [None] and therefore consistent with the copy's fields. *)
+Theorem assoc_cache_reset : forall k inh i changes c0,
+  wf k -> k_cache_hash k = true -> fields_readable k i -> read k i HASH_CACHE = Ok c0 ->
+  NoDup (map fst changes) ->
+  (forall n, In n (map fst changes) -> In n (map a_name (k_attrs k))) ->
+  exists new, assoc k inh i changes = (i, AssocDone new) /\
+    read k new HASH_CACHE = Ok VNone /\ cache_consistent k new = true.
+Proof. exact assoc_cache_reset_l. Qed.
+Print Assumptions assoc_cache_reset.
+
+(** Only field names are ever stored under (this was K3b): a successful [assoc] had only
+    field names as keys ... *)
+Theorem assoc_only_fields : forall k inh i changes new,
+  assoc k inh i changes = (i, AssocDone new) ->
+  forall n, In n (map fst changes) -> In n (map a_name (k_attrs k)).
+Proof. exact assoc_only_fields_l. Qed.
+Print Assumptions assoc_only_fields.
+
+(** ... and the first key that is no field name - [count], [index], any other attribute of
+    tuple objects included - raises AttrsAttributeNotFoundError. *)
 Theorem assoc_unknown_raises : forall k inh i pre n v post,
   wf k -> copyable k inh i ->
   (forall m, In m (map fst pre) -> In m (map a_name (k_attrs k))) ->
-  fields_getattr_found k n = false ->
+  ~ In n (map a_name (k_attrs k)) ->
   assoc k inh i (pre ++ (n, v) :: post) = (i, AssocNotFound).
 Proof. exact assoc_unknown_raises_l. Qed.
 Print Assumptions assoc_unknown_raises.
@@ -160,42 +179,23 @@ Theorem assoc_original_untouched : forall k inh i changes, fst (assoc k inh i ch
 Proof. exact assoc_original_untouched_l. Qed.
 Print Assumptions assoc_original_untouched.
 
-(** Hash consistency of the copy, guarded: generated [__getstate__]/[__setstate__] ... *)
-Theorem assoc_getstate_cache_consistent : forall k inh i changes,
-  wf k -> has_getstate k inh = true -> fields_readable k i -> k_cache_hash k = true ->
-  NoDup (map fst changes) ->
-  (forall n, In n (map fst changes) -> In n (map a_name (k_attrs k))) ->
-  exists new, assoc k inh i changes = (i, AssocDone new) /\ cache_consistent k new = true.
-Proof. exact assoc_getstate_cache_consistent_l. Qed.
-Print Assumptions assoc_getstate_cache_consistent.
-
-(** ... or a pure dict chain where no replaced field takes part in the hash. *)
-Theorem assoc_dict_cache_guarded : forall k inh i changes,
-  wf k -> has_getstate k inh = false -> cache_consistent k i = true ->
-  NoDup (map fst changes) ->
-  (forall n, In n (map fst changes) -> In n (map a_name (k_attrs k))) ->
-  (forall n, In n (map fst changes) -> ~ In n (hash_names k)) ->
-  exists new, assoc k inh i changes = (i, AssocDone new) /\ cache_consistent k new = true.
-Proof. exact assoc_dict_cache_guarded_l. Qed.
-Print Assumptions assoc_dict_cache_guarded.
-
-(** K3a - the unguarded statement is FALSE of the faithful model (and of the code). *)
-Theorem assoc_stale_cache_refuted :
+(** The code BEFORE the repairs ([assoc_buggy] = no cache reset, everything that is not
+    NOTHING accepted) violated both: regression witnesses. *)
+Theorem assoc_buggy_stale_cache_refuted :
   exists k inh i changes new,
     wf k /\ k_cache_hash k = true /\ has_getstate k inh = false /\
     fields_readable k i /\ cache_consistent k i = true /\
     NoDup (map fst changes) /\
     (forall n, In n (map fst changes) -> In n (hash_names k)) /\
-    assoc k inh i changes = (i, AssocDone new) /\
+    assoc_buggy k inh i changes = (i, AssocDone new) /\
     read k new HASH_CACHE = read k i HASH_CACHE /\
     cache_consistent k new = false.
-Proof. exact assoc_stale_cache_refuted_l. Qed.
-Print Assumptions assoc_stale_cache_refuted.
+Proof. exact assoc_buggy_stale_cache_refuted_l. Qed.
+Print Assumptions assoc_buggy_stale_cache_refuted.
 
-(** K3b - [count] / [index] are accepted although they are not fields. *)
-Theorem assoc_count_index_refuted :
+Theorem assoc_buggy_count_index_refuted :
   exists k inh i n v new,
     wf k /\ ~ In n (map a_name (k_attrs k)) /\ (n = "count" \/ n = "index") /\
-    assoc k inh i [(n, v)] = (i, AssocDone new) /\ read k new n = Ok v.
-Proof. exact assoc_count_index_refuted_l. Qed.
-Print Assumptions assoc_count_index_refuted.
+    assoc_buggy k inh i [(n, v)] = (i, AssocDone new) /\ read k new n = Ok v.
+Proof. exact assoc_buggy_count_index_refuted_l. Qed.
+Print Assumptions assoc_buggy_count_index_refuted.
